@@ -90,6 +90,7 @@ def currentCfg : Cfg :=
       C09.kvAddBucketCacheCalls = ["lock.RLock", "defer:lock.RUnlock", "bucketCache.Add"]
     schemaLockedUsesCache := C09.schemaGetSchemaLockedCalls.contains "cache.Get"
     indexFlushAborts := flushAbortsOf C09.indexFlushStepGuards
+    kvCacheReleasesOnEvict := C09.kvNewStoreEvictCalls.contains "value.Release"
     prepareSwapsEmpty := [C09.kvPrepareFlushCalls, C09.schemaPrepareFlushCalls, C09.invertedPrepareFlushCalls,
       C09.forwardPrepareFlushCalls].all (·.contains "immutable.IsEmpty") }
 
